@@ -21,7 +21,7 @@ def run_property(cid, facts_dir, verbose=True):
 
 if __name__ == "__main__":
     args = sys.argv[1:]
-    facts = "/root/scratch/proto/facts"
+    facts = os.environ.get("FACTS", "")
     if "--facts" in args:
         i = args.index("--facts"); facts = args[i + 1]; del args[i:i + 2]
     sys.path.insert(0, os.path.dirname(os.path.dirname(os.path.abspath(__file__))))
